@@ -222,8 +222,34 @@ NGO_PREDS = ["__aux_1", "__aux_2", "__dom_p", "__dom_a", "__min_0_1", "__max_0_1
              "unique", "anon__ngo"]
 
 
+def layered_program(rng) -> str:
+    """a choice at the bottom, layers of derived predicates above it, statements in shuffled (use-before-define) order"""
+    depth = rng.choice([2, 3, 4])
+    lines = [rng.choice(["{ l0(X) } :- d(X).", "{ l0(X) : d(X) }.", "l0(X) :- d(X), not n0(X). { n0(X) } :- d(X)."])]
+    for k in range(1, depth + 1):
+        body = rng.choice([f"l{k - 1}(X)", f"l{k - 1}(X), e(X)", f"d(X), not l{k - 1}(X)", f"l{k - 1}(X), l{max(0, k - 2)}(X)"])
+        lines.append(f"l{k}(X) :- {body}.")
+    top = f"l{depth}"
+    lines.append(rng.choice([f"m(M) :- M = #max {{ X : {top}(X) }}.", f"ok :- 2 < #min {{ X : {top}(X) }}.",
+                             f":- {top}(A), {top}(B), A != B.", f"s(S) :- S = #sum {{ X : {top}(X) }}."]))
+    if rng.random() < 0.4:
+        lines.append(f"st(X) :- d(X), e(X). t(M) :- M = #max {{ X : st(X), {top}(X) }}.")
+    if rng.random() < 0.7:
+        lines.append("{ sel(X,V) } :- item(X,V).")
+        lines.append(f"top(M) :- M = #{rng.choice(['max', 'min'])} {{ V : sel(X,V), {rng.choice([top, f'l{depth - 1}'])}(X) }}.")
+    rng.shuffle(lines)
+    return "\n".join(lines)
+
+
 def mutate(rng, text: str) -> str:
     r = rng.random()
+    if rng.random() < 0.12:  # statement order must not matter
+        ls = [l for l in text.split("\n") if l.strip()]
+        if len(ls) > 1 and all(l.rstrip().endswith((".", "]")) for l in ls):
+            rng.shuffle(ls)
+            return "\n".join(ls)
+    if rng.random() < 0.06:
+        return text + "\n" + layered_program(rng)
     if r < 0.15:  # rename a variable to a template variable
         vs = sorted(set(re.findall(r"\b[A-Z][A-Za-z0-9]*\b", text)))
         if vs:
